@@ -561,6 +561,13 @@ class Weaver:
             elif t9_open: auto = 'T9'
             if auto and disp in ('verify', 'default', 'nodecreases'):
                 self.rec(auto, rel, s, f['start'], qual)
+                if auto == 'T9' and spec and spec.get('annot') and not spec['pin']:
+                    # the overlay proves this body through @annot'ed closures and therefore carries no pin; a `.map(|_|`
+                    # closure that no @annot claims (a changed range expression moved the needle, a new closure was added)
+                    # would silently turn the function into an unpinned trusted contract. Soft: its properties are UNDECIDED.
+                    self.soft_lost.append({'desc': f"{rel}: fn {qual}: a `.map(|_|` closure is claimed by no @annot (needle lost or new closure): "
+                                                   f"the body would be external_body (T9) under an unpinned, unreviewed contract",
+                                           'props': sorted(set(props))})
                 disp = 'trusted' if spec else 'default'
             if (rel, qual) in self.demote and disp != 'ignored':
                 disp = 'trusted' if spec else 'default'
@@ -776,7 +783,12 @@ class Weaver:
                     q = s.find('|', p + 1) if s[p] == '|' else -1
                     lines = text.split('\n')
                     params = next((l.strip()[7:].strip() for l in lines if l.strip().startswith('params ')), None)
-                    clauses = '\n'.join(l for l in lines if not l.strip().startswith('params '))
+                    # `form lowered`: the closure sits inside a std macro (debug_assert!), whose argument the verus! macro does
+                    # not rewrite, so the contract is emitted the way verus! itself lowers a closure contract:
+                    # `|p: T| -> U { ::verus_builtin::requires([..]); ::verus_builtin::ensures(|r: U| [..]); EXPR }`.
+                    # The clause expressions are then plain Rust (no `==>`, `@`, `forall`, `as int`).
+                    lowered = any(l.strip() == 'form lowered' for l in lines)
+                    clauses = '\n'.join(l for l in lines if not l.strip().startswith('params ') and l.strip() != 'form lowered')
                     if q < 0 or not params:
                         self.soft_lost.append({'desc': f"{rel}: annotated closure \"{needle}\" #{nth} in {qual}: not a `|..| expr` closure", 'props': sorted(tg)}); continue
                     k = q + 1
@@ -799,6 +811,18 @@ class Weaver:
                         self.lost.append(f"{rel}: @annot \"{needle}\" in {qual}: bad params line"); continue
                     self.rec("T16", rel, s, p, f"closure annotation in {qual}")
                     nid = re.sub(r'\s+', '_', needle)
+                    if lowered:
+                        mret = re.match(r'\(\s*(\w+)\s*:\s*(.*)\)$', mparams.group(2))
+                        mcl = re.match(r'\s*(?:requires\b(?P<req>.*?))?(?:ensures\b(?P<ens>.*))?$', re.sub(r'(?m)^\s*\[(?:C\d+)(?:,C\d+)*\]', '', clauses), re.S)
+                        if not mret or not mcl:
+                            self.lost.append(f"{rel}: @annot \"{needle}\" in {qual}: bad lowered form"); continue
+                        low = ''
+                        if (mcl.group('req') or '').strip(): low += f"::verus_builtin::requires([{' '.join(mcl.group('req').split())}]); "
+                        if (mcl.group('ens') or '').strip(): low += f"::verus_builtin::ensures(|{mret.group(1)}: {mret.group(2)}| [{' '.join(mcl.group('ens').split())}]); "
+                        edits.append((p, q + 1, rep(f"|{mparams.group(1)}| -> {mret.group(2)}", s[p:q + 1])))
+                        edits.append((k, k, ins(f"{cid0}:annot[{nid}#{nth}]", sorted(tg), '{ ' + low)))
+                        edits.append((e, e, ins(f"{cid0}:annotend[{nid}#{nth}]", [], ' }')))
+                        continue
                     edits.append((p, q + 1, rep(f"|{mparams.group(1)}| -> {mparams.group(2)}", s[p:q + 1])))
                     edits.append((k, k, ins(f"{cid0}:annot[{nid}#{nth}]", sorted(tg), clauses.rstrip() + '\n{ ')))
                     edits.append((e, e, ins(f"{cid0}:annotend[{nid}#{nth}]", [], ' }')))
